@@ -488,6 +488,25 @@ def check_history(chk, ctx, base, scheds, tag, ref=None, use_model=True):
             ctx["hang"] = ctx.get("hang") or r["rc"] == -9
             chk.violation(key, "the engine driver %s on a generated history under schedule %s" % ("did not return (timeout)" if r["rc"] == -9 else "crashed (rc=%s)" % r["rc"], sname),
                           dict(scenario=lines, schedule=sname, stderr=r["err"][-1500:]), found_input=True, broken="c06 oracle (build returns) on implementation")
+            if r["rc"] != -9:
+                # what did the tasks see before the crash?  the driver's stdout is block-buffered: run it again unbuffered and judge the partial trace
+                rc2, out2, err2 = vlib.sh(["stdbuf", "-o0", drv, r["sp"], wd], timeout=30)
+                pb = real_builds(out2.splitlines())
+                perrs, pseqs, psh = [], [], Shadow()
+                for b, info in zip(pb, infos):
+                    perrs += enginelib.protocol_check(b)[0]
+                    oerrs = []
+                    oracle_build(b, info, psh, oerrs)
+                    perrs += [m for _, m in oerrs]
+                    pseqs += [(b["hdr"], q) for q in task_sequences(b, info)]
+                rej = []
+                if pseqs:
+                    rcm, pans, _ = vlib.run_lines(model, proto_requests([q for _, q in pseqs]))
+                    rej = ["task %d in '%s' saw %s for slots %s: %s" % (k, hdr, ",".join(toks), slots, a) for (hdr, (k, slots, toks)), a in zip(pseqs, pans) if a.startswith("REJECT")]
+                if perrs or rej:
+                    chk.violation("protocol", "%s (schedule %s; the driver then crashed)" % ((perrs + rej)[0], sname),
+                                  dict(scenario=lines, schedule=sname, protocol_errors=perrs[:10], automaton=rej[:10], trace_tail=out2.splitlines()[-25:]),
+                                  found_input=bool(perrs), broken="c06 oracle (task protocol) on implementation")
             continue
         builds = real_builds(r["out"])
         if len(builds) != len(infos):
